@@ -1060,6 +1060,83 @@ def _inside_loop(node, loop):
     return False
 
 
+def _monomial(e, env=None):
+    """(coeff, {symbol: power}) of a product of names / attributes / constants; None otherwise."""
+    from fractions import Fraction
+    env = env or {}
+    if isinstance(e, ast.Constant) and isinstance(e.value, (int, float)) and not isinstance(e.value, bool):
+        return (Fraction(str(e.value)), {})
+    if isinstance(e, ast.Name):
+        return env.get(e.id, (Fraction(1), {e.id: 1}))
+    if isinstance(e, ast.Attribute):
+        return (Fraction(1), {ast.unparse(e): 1})
+    if isinstance(e, ast.BinOp) and isinstance(e.op, ast.Mult):
+        a, b = _monomial(e.left, env), _monomial(e.right, env)
+        if a is None or b is None:
+            return None
+        pw = dict(a[1])
+        for k, v in b[1].items():
+            pw[k] = pw.get(k, 0) + v
+        return (a[0] * b[0], pw)
+    return None
+
+
+def r1214(ctx):
+    """Step budget: every engine lets the MD program / integrator loop run exactly
+    path.maxlen * subcycles steps, so that a trajectory which reaches no interface delivers
+    maxlen frames and is stopped (and rejected) by add_to_path's length test - never a shorter
+    one that the callers would take for a completed path."""
+    rid = "R-12.14"
+    tree = ctx.tree
+    want = {"path.maxlen": 1, "self.subcycles": 1}
+    sites = []
+    for rel in ENGINE_FILES:
+        for m, q, f in tree.all_funcs([rel]):
+            if f.name != "_propagate_from":
+                continue
+            found = []
+            for n in walk_local(f):
+                cand = None
+                if isinstance(n, ast.Call) and last_name(n) == "range" and len(n.args) == 1:
+                    cand = n.args[0]
+                if isinstance(n, ast.keyword) and n.arg in ("steps", "nsteps"):
+                    cand = n.value
+                if isinstance(n, ast.Dict):
+                    for k, v in zip(n.keys, n.values):
+                        if isinstance(k, ast.Constant) and isinstance(k.value, str) and "nsteps" in k.value.lower():
+                            found.append((v, n))
+                if cand is not None and "maxlen" in ast.unparse(cand):
+                    found.append((cand, n))
+            # CP2K: (path.maxlen, self.subcycles) handed separately to the input writer, multiplied there
+            for c in [c for c in walk_local(f) if isinstance(c, ast.Call) and last_name(c) in ("write_for_run_vel", "write_for_continue", "write_for_step_vel")]:
+                args = [ast.unparse(a) for a in c.args]
+                if "path.maxlen" in args and "self.subcycles" in args:
+                    callee = next((g for mm, qq, g in tree.all_funcs([rel]) if g.name == last_name(c)), None)
+                    if callee is not None:
+                        ps = [a.arg for a in callee.args.args]
+                        pn, psub = ps[args.index("path.maxlen")], ps[args.index("self.subcycles")]
+                        prod = [b for b in walk_local(callee) if isinstance(b, ast.BinOp) and isinstance(b.op, ast.Mult) and {ast.unparse(b.left), ast.unparse(b.right)} == {pn, psub}]
+                        if prod:
+                            sites.append((q, c, (1, dict(want)), "path.maxlen and self.subcycles handed to " + last_name(c) + ", multiplied there (STEPS)"))
+                        else:
+                            sites.append((q, c, None, f"{last_name(c)} does not multiply its nsteps and subcycles parameters"))
+            for e, n in found:
+                sites.append((q, n if not isinstance(n, ast.keyword) else e, _monomial(e), short(e, 50)))
+    by_engine = {}
+    for q, node, mono, txt in sites:
+        by_engine.setdefault(q, []).append((node, mono, txt))
+    if len(by_engine) < 5:
+        raise AnalysisError(f"R-12.14: step budget found in {sorted(by_engine)} only (expected all five engines)")
+    from fractions import Fraction
+    for q, lst in sorted(by_engine.items()):
+        for node, mono, txt in lst:
+            if mono is not None and mono[0] == 1 and mono[1] == want:
+                ctx.ok(rid, node, f"{q}: step budget = path.maxlen * self.subcycles ({txt})")
+            else:
+                ctx.bad(rid, node, f"{q}: the number of MD steps is `{txt}`, not path.maxlen * self.subcycles as in the sibling engines: a trajectory that reaches no interface ends with fewer than maxlen frames (or runs on), so the length test of add_to_path / of the zero-swap moves does not see a completed path for what it is",
+                        construct=f"{q}: step budget {txt}")
+
+
 def run(ctx):
     ctx.rule("R-12.9", "polling loops read the trajectory once more after the external program was observed finished (abstract interpretation over the loop's counter and the process state)", floor=2)
     ctx.rule("R-12.1", "every frame goes through add_to_path; stop tested before any further append; true edge ends all frame loops; returned success is add_to_path's", floor=5)
@@ -1070,6 +1147,8 @@ def run(ctx):
     ctx.rule("R-12.6", "velocity direction applied exactly once (no reverse-conditional negation before calculate_order)", floor=5)
     ctx.rule("R-12.7", "every sleeping wait loop observes the external process", floor=6)
     ctx.rule("R-12.8", "frames handed to the engines by the on-the-fly readers do not share arrays (a frame's box and coordinates are its own)", floor=3)
+    ctx.rule("R-12.15", "the configuration an engine starts from after a velocity reversal is the phase point itself: _reverse_velocities writes positions, box and identities exactly as read (shared with C19 R-19.5)", floor=5)
+    ctx.rule("R-12.14", "step budget: every engine runs path.maxlen * subcycles MD steps (sibling agreement, monomial form)", floor=5)
     ctx.rule("R-12.13", "the TRR frames the GROMACS engine consumes while mdrun runs are complete frames: reads dominated by fresh size guards, bytes_read advanced by each returned count (shared with C13 R-13.3)", floor=3)
     ctx.rule("R-12.12", "frame indices of configuration references are never tested by truthiness (index 0 is a frame)", floor=5)
     ctx.rule("R-12.11", "no `for` variable of the engine modules is read after its loop has ended", floor=40)
@@ -1092,6 +1171,10 @@ def run(ctx):
         ctx.attempt(r129, ctx, m, cname, f)
     ctx.attempt(r124, ctx)
     ctx.attempt(r124_rc_tests, ctx)
+    ctx.attempt(r1214, ctx)
+    from . import c19
+    from .shared import RuleProxy as _RP
+    ctx.attempt(c19.r195, _RP(ctx, "R-12.15", " (a reversed propagation then starts from a frame that is not the phase point: other box / atoms than the frame it references)"))
     ctx.attempt(r127, ctx)
     # frames queued by the on-the-fly readers own their arrays (box/coordinates of frame k are frame k's)
     from .c13 import readers
@@ -1108,6 +1191,10 @@ def run(ctx):
 
 
 VARIANTS = [
+    B("c12-gromacs-reverse-writes-template", GROMACS, "        write_gromos96_file(outfile, txt, xyz, -1 * vel)", "        write_gromos96_file(outfile, self.top, xyz, -1 * vel)", "R-12.15", why="seeded C12_e"),
+    B("c12-ase-one-frame-short", ASE, "        for i in range(self.subcycles * path.maxlen):", "        for i in range(self.subcycles * (path.maxlen - 1)):", "R-12.14", control=True, why="seeded C09_e"),
+    B("c12-lammps-nsteps-without-subcycles", LAMMPS, '"infretis_nsteps": path.maxlen * self.subcycles,', '"infretis_nsteps": path.maxlen,', "R-12.14"),
+    K("c12-keep-ase-budget-commuted", ASE, "        for i in range(self.subcycles * path.maxlen):", "        for i in range(path.maxlen * self.subcycles):"),
     B("c12-trr-bytes-counted-per-frame", GROMACS, "                    if header is not None:\n                        self.bytes_read += new_bytes\n                        self.header_size = new_bytes", "                    if header is not None:\n                        self.header_size = new_bytes", "R-12.13", control=True, why="seeded C12_d (= C13_c)",
       also=[(GROMACS, "                                    self.bytes_read += new_bytes\n                                    yield data", "                                    self.bytes_read += (\n                                        self.header_size + new_bytes\n                                    )\n                                    yield data")]),
     B("c12-dump-config-idx-truthiness", ENGBASE, "        if idx is None:\n            if pos_file != out_file:\n                self._copyfile(pos_file, out_file)\n        else:\n            logger.debug(\"Config: %s\", (config,))\n            self._extract_frame(pos_file, idx, out_file)\n", "        if idx:\n            logger.debug(\"Config: %s\", (config,))\n            self._extract_frame(pos_file, idx, out_file)\n        elif pos_file != out_file:\n            self._copyfile(pos_file, out_file)\n", "R-12.12", control=True),
